@@ -65,8 +65,8 @@ type Reach struct {
 	// FollowGated: also follow the flag-gated dispatch c.f(t,c) (for questions
 	// about everything that can execute under a frame, whatever its flags).
 	FollowGated bool
-	prev             map[searchState]searchHop
-	order   []searchState
+	prev        map[searchState]searchHop
+	order       []searchState
 }
 
 // Run explores from the given sources. visit is called for each edge whose
